@@ -225,7 +225,7 @@ Definition legacy_app_run_all (specs : nat -> screen_spec) (specl : list screen_
   let '(_, s1) := exec (legacy_screen_code specs) 20 (CProg app_initialize) s0 in
   legacy_app_session specs fuel acts s1.
 
-(* the F15 session (corpus/screen/F15_args_overwritten.json): run() twice after force_quit; the refused second request
+(* the F15 session (corpus/screen/regression_F15_args_overwritten.json): run() twice after force_quit; the refused second request
    of the same screen, scheduled a second time with arguments 2, overwrote InputManager._input_args *)
 Definition f15_spec : screen_spec :=
   {| sc_setup := []; sc_refresh := [SIfCount 1 [] [SForceQuit]]; sc_show := [SIfCount 1 [SPush 0 2] []]; sc_closed := [];
